@@ -19,7 +19,7 @@ func init() {
 			"(equal => no write, different non-zero => error), for the value just loaded from the same slot; a timeslot before the history origin is refused; ADDRESS saver and loader compute the byte offset 4*(1 + timeslot - origin) with the same term, exact (no wrap-around) for timeslot - origin up to 2^30-2, " +
 			"which covers every timeslot UnixToTimeslot can produce; SEND-AFTER-SAVE in the reporting loop a report for a new reading is sent only after the saver returned nil for (record.Timeslot, uint32(record.Energy)) of the very record that is sent; the start-up pass saves and never sends; " +
 			"the resend pass sends only values returned by the history loader; every datagram is built by one sender function from (id, timeslot, value) and signed over SigningBytes of that same structure, so equal (timeslot, value) give byte-identical datagrams (deterministic signing, trusted). " +
-			"NOT decided: the evolution of the energy file as such; two rows whose values differ only above bit 31 (the saver compares 32 bits while the first send carries 64: noted).",
+			"a reading is sent only under E == uint64(int32(uint32(E))) (what a re-send reconstructs from the 32-bit history); the saver returns nil after the write only if WriteAt succeeded; the loader answers \"empty\" only under err == io.EOF (or before the origin) and a value only when the read succeeded. NOT decided: the evolution of the energy file as such; two rows whose values differ only above bit 31 (the saver compares 32 bits while the first send carries 64: noted).",
 		Assumptions: append([]string{"(*os.File).WriteAt/ReadAt address the same bytes for the same offset", "glow.Sign is deterministic (RFC 6979, trusted)"}, baseAssumptions...),
 		Run:         runC09,
 	})
@@ -205,6 +205,93 @@ func writeOnce(c *an.Ctx, saver, loader *ssa.Function) (*ssa.Call, an.FactSet, *
 		}
 		c.Check(okErr, "WRITE-ONCE", saver, saver.Pos(), an.KeyOf(saver, "conflict-error"), "a different value for an occupied slot makes the saver return an error (so the caller does not send it)", "error return under stored != 0 and stored != new")
 	}
+	// the saver reports success only when the write succeeded (a reading that is not on disk must not be sent):
+	// every nil return that the write can reach is dominated by WriteAt's error being nil
+	if write != nil {
+		okW := true
+		where := ""
+		for _, b := range saver.Blocks {
+			if len(b.Instrs) == 0 || b == saver.Recover {
+				continue
+			}
+			ret, ok := b.Instrs[len(b.Instrs)-1].(*ssa.Return)
+			if !ok || len(ret.Results) == 0 || !isConstTerm(sfi.Term(ret.Results[len(ret.Results)-1]), "nil") {
+				continue
+			}
+			if !(write.Block() == b || reachable(write.Block(), b)) {
+				continue
+			}
+			succ := false
+			for _, f := range sfi.FactsAt(ret) {
+				if !f.Neg && f.T.K == an.KBin && f.T.S == "==" {
+					for _, a := range f.T.A {
+						if a.K == an.KExt && a.S == "1" && a.A[0].Val == ssa.Value(write) {
+							succ = true
+						}
+					}
+				}
+			}
+			if !succ {
+				okW = false
+				where = c.P.Pos(ret.Pos())
+			}
+		}
+		c.Check(okW, "WRITE-ONCE", saver, write.Pos(), an.KeyOf(saver, "success-means-written"), "the saver returns nil after the write only if WriteAt returned a nil error (the caller sends only what is on disk)", "nil return at "+where+" is not dominated by the write's success")
+	}
+	// the loader answers 'empty' (0, nil) only for a slot before the origin or beyond the end of the file (io.EOF);
+	// any other read failure is an error, never 'empty' (otherwise an occupied slot could be overwritten)
+	lfi := c.P.Info(loader)
+	var readAt *ssa.Call
+	for _, b := range loader.Blocks {
+		for _, in := range b.Instrs {
+			if call, ok := in.(*ssa.Call); ok && an.CalleeName(&call.Call) == "(*os.File).ReadAt" {
+				readAt = call
+			}
+		}
+	}
+	if readAt != nil {
+		okL := true
+		why := ""
+		for _, b := range loader.Blocks {
+			if len(b.Instrs) == 0 || b == loader.Recover {
+				continue
+			}
+			ret, ok := b.Instrs[len(b.Instrs)-1].(*ssa.Return)
+			if !ok || len(ret.Results) != 2 || !isConstTerm(lfi.Term(ret.Results[1]), "nil") {
+				continue
+			}
+			if !(readAt.Block() == b || reachable(readAt.Block(), b)) {
+				continue // before the read: the before-origin answer
+			}
+			eof, good := false, false
+			for _, f := range lfi.FactsAt(ret) {
+				if f.Neg || f.T.K != an.KBin || f.T.S != "==" {
+					continue
+				}
+				for k := 0; k < 2; k++ {
+					a, o := f.T.A[k], f.T.A[1-k]
+					if a.K == an.KExt && a.S == "1" && a.A[0].Val == ssa.Value(readAt) {
+						if isConstTerm(o, "nil") {
+							good = true
+						}
+						if strings.Contains(o.Key(), "io.EOF") {
+							eof = true
+						}
+					}
+				}
+			}
+			vz := isConstTerm(lfi.Term(ret.Results[0]), "0")
+			switch {
+			case vz && !eof && !good:
+				okL = false
+				why = "return 0, nil at " + c.P.Pos(ret.Pos()) + " without err == io.EOF"
+			case !vz && !good:
+				okL = false
+				why = "a value is returned at " + c.P.Pos(ret.Pos()) + " although the read may have failed"
+			}
+		}
+		c.Check(okL, "WRITE-ONCE", loader, readAt.Pos(), an.KeyOf(loader, "empty-only-eof"), "the history loader answers 'empty' only when the slot lies beyond the end of the file (err == io.EOF) and a value only when the read succeeded; every other read failure is returned as an error", why)
+	}
 	return write, facts, tsS
 }
 
@@ -345,6 +432,14 @@ func sendAfterSave(c *an.Ctx, saver, loader *ssa.Function) {
 			}
 		}
 		c.Check(savedOK || fromHistory, "SEND", fn, call.Pos(), key, "a report is sent only for a reading that was just saved successfully in the history (first value wins) or that was read back from the history", fmt.Sprintf("saved-first %v, from-history %v; facts %s", savedOK, fromHistory, factList(fi.FactsAt(call))))
+		if savedOK && !fromHistory {
+			// the history keeps uint32(E) and a re-send reconstructs uint64(int32(stored)): what is sent first must be
+			// exactly what that reconstruction gives, otherwise the first datagram and a later re-send differ (and a
+			// value whose low 32 bits are 0 is not recorded at all, so a different later value would be accepted)
+			e := fi.FieldOfTerm(rec, "Energy")
+			okRep := representableFact(fi.FactsAt(call), e)
+			c.Check(okRep, "SEND", fn, call.Pos(), key+":representable", "a reading is sent only if it survives the round trip through the 32-bit history unchanged (E == uint64(int32(uint32(E)))): every datagram for the slot, first send or re-send, then carries the same value", "facts "+factList(fi.FactsAt(call)))
+		}
 	}
 	c.Count("SEND", n)
 	c.Floor("SEND", 1)
@@ -369,4 +464,24 @@ func sendAfterSave(c *an.Ctx, saver, loader *ssa.Function) {
 			c.Check(!callsSender, "SEND", fn, fn.Pos(), an.KeyOf(fn, "startup-no-send"), "the start-up pass records the existing readings in the history and sends nothing", "no call of the sender")
 		}
 	}
+}
+
+// representableFact: the facts contain E == uint64(int32(uint32(E))).
+func representableFact(fs an.FactSet, e *an.Term) bool {
+	for _, f := range fs {
+		if f.Neg || f.T.K != an.KBin || f.T.S != "==" {
+			continue
+		}
+		for k := 0; k < 2; k++ {
+			a, b := f.T.A[k], f.T.A[1-k]
+			if a.Key() != e.Key() {
+				continue
+			}
+			if b.K == an.KConv && strings.HasSuffix(b.S, "uint64") && b.A[0].K == an.KConv && strings.HasSuffix(b.A[0].S, "int32") &&
+				b.A[0].A[0].K == an.KConv && strings.HasSuffix(b.A[0].A[0].S, "uint32") && b.A[0].A[0].A[0].Key() == e.Key() {
+				return true
+			}
+		}
+	}
+	return false
 }
